@@ -722,6 +722,18 @@ def c13_effects(rng, tier):
     l1 = np.linalg.norm(m[-1] - m[0], axis=1); l2 = np.linalg.norm(m2[-1] - m2[0], axis=1)
     if relerr(l1, l2) > 1e-12:
         out.append(_fail("twist changes the chord length", l1, l2, **case))
+    # combinations: sweep and dihedral are linear in the distance from the root of the *resulting* planform (after the span has
+    # been set and the sections have been sheared in y)
+    ang_s = float(rng.uniform(5, 30)); ang_d = float(rng.uniform(2, 12)); sp = float(span * rng.uniform(0.7, 1.5))
+    ysh = np.linspace(0.0, float(rng.uniform(-0.3, 0.3)), 3) if sym else np.zeros(3)
+    m0 = _run_geometry(dict(base, span=sp, yshear_cp=ysh))
+    m = _run_geometry(dict(base, span=sp, yshear_cp=ysh, sweep=ang_s, dihedral=ang_d))
+    dist1 = np.abs(m[0, :, 1] - m[0, root, 1])
+    if relerr(m[:, :, 1], m0[:, :, 1]) > 1e-12:
+        out.append(_fail("sweep / dihedral change y", m[:, :, 1], m0[:, :, 1], **case))
+    if relerr(m[:, :, 2] - m0[:, :, 2], np.broadcast_to(dist1 * np.tan(np.radians(ang_d)), m[:, :, 2].shape)) > 1e-10:
+        out.append(_fail("with a modified span / y-shear, dihedral does not displace z by |y-y_root| tan(dihedral)",
+                         (m[:, :, 2] - m0[:, :, 2])[0], dist1 * np.tan(np.radians(ang_d)), dihedral=ang_d, span=sp, **case))
     # shears translate sections; equal control points give a constant distribution
     v = float(rng.normal())
     for key, ax in (("xshear_cp", 0), ("yshear_cp", 1), ("zshear_cp", 2)):
